@@ -97,6 +97,7 @@ type c14Half struct {
 	off     int
 	wclosed bool // writer closed: reader drains, then io.EOF
 	rclosed bool // reader closed: writes fail, pending reads fail
+	gated   bool // delivery held back: reads block although bytes are queued
 	reads   int  // Read calls that returned data so far
 	short   map[int]int
 	fired   int // short reads that really truncated
@@ -115,7 +116,7 @@ func c14NewHalf(preface bool) *c14Half {
 func (h *c14Half) read(p []byte) (int, error) {
 	h.mu.Lock()
 	defer h.mu.Unlock()
-	for h.off == len(h.buf) && !h.wclosed && !h.rclosed {
+	for (h.off == len(h.buf) || h.gated) && !h.wclosed && !h.rclosed {
 		h.cond.Wait()
 	}
 	if h.rclosed {
@@ -140,6 +141,13 @@ func (h *c14Half) read(p []byte) (int, error) {
 		h.buf, h.off = h.buf[:0], 0
 	}
 	return n, nil
+}
+
+func (h *c14Half) release() {
+	h.mu.Lock()
+	h.gated = false
+	h.cond.Broadcast()
+	h.mu.Unlock()
 }
 
 func (h *c14Half) write(p []byte) (int, error) {
@@ -439,6 +447,11 @@ func c14Situation(x *c14Case) string {
 		// received the server's smaller SETTINGS_INITIAL_WINDOW_SIZE
 		return "request-data-sent-before-server-settings-exceeds-advertised-smaller-window"
 	}
+	if x.Early && x.STbl < min(x.CTbl, 4096) {
+		// until the client has received SETTINGS_HEADER_TABLE_SIZE its encoder
+		// may use (and announce) a dynamic table of up to 4096 bytes
+		return "request-header-block-sent-before-server-settings-vs-smaller-server-header-table"
+	}
 	return ""
 }
 
@@ -468,6 +481,12 @@ func c14Exchange(vw *vx.W, x *c14Case) (st c14Stats, completed bool) {
 		}
 		h.short[s.Index] = s.N
 	}
+	// Early: nothing the server sends reaches the client before the client has
+	// sent as much of its request as the protocol defaults allow (a client need
+	// not wait for the server's SETTINGS). Otherwise the request starts after
+	// both SETTINGS frames were exchanged and acknowledged. Both are
+	// deterministic extremes of the real race.
+	s2c.gated = x.Early
 	cliConn := &c14Conn{in: s2c, out: c2s, name: "client"}
 	srvConn := &c14Conn{in: c2s, out: s2c, name: "server"}
 
@@ -678,6 +697,10 @@ func c14Exchange(vw *vx.W, x *c14Case) (st c14Stats, completed bool) {
 		cr1.stage = "done"
 	}()
 
+	if x.Early {
+		synctest.Wait() // the client has sent all it can without hearing from the server
+		s2c.release()
+	}
 	hung := false
 	select {
 	case <-cliDone:
